@@ -212,6 +212,10 @@ def mk_engine(objs=(), policies=None, identity=("alice", None), version=(1, 2), 
         e._protocol_version = pv
         e._attribute_policy = spolicy.AttributePolicy(pv)
         e._id_placeholder = None
+        # the engine's own containers must not be shared with the template (an in-place mutation
+        # by the code under test would otherwise leak into every later engine of this process)
+        e._protocol_versions = list(t._protocol_versions)
+        e._object_map = dict(t._object_map)
         if policies is None:
             policies = default_policies()
     s = FakeSession(objs, next_id=next_id)
@@ -276,6 +280,23 @@ def mk_obj(kind, uid=1, value=None, masks=None, state=None, owner="alice", polic
     if sym_value is not None:
         o.value = sym_value
     return o
+
+
+TRANSIENT = {"_client_identity", "_protocol_version", "_attribute_policy", "_data_session", "_id_placeholder",
+             "is_asynchronous", "_logger", "_cryptography_engine", "_data_store_session_factory", "_process_operation",
+             "process_request"}
+
+
+def engine_frame(e):
+    """Everything of the engine that is *not* per-request transient state: no request may change it."""
+    return (
+        [(v.major, v.minor) for v in e._protocol_versions],
+        (e.default_protocol_version.major, e.default_protocol_version.minor),
+        sorted((k.name, getattr(v, "__name__", None)) for k, v in e._object_map.items()),
+        copy.deepcopy(e._operation_policies),
+        e.database_path,
+        sorted(k for k in e.__dict__ if k not in TRANSIENT),
+    )
 
 
 def warm_up():
